@@ -790,9 +790,12 @@ class Urandom:
         self.__dict__["draws"] += 1
         if SCHED is not None and SCHED.cur is not None:
             SCHED.yield_op(("op", None, "urandom"), write=False)
-        if self.script:
-            v = self.script.popleft()
-            return bytes(v)[:n].rjust(n, b"\0")
+        out = b""
+        while self.script and len(out) < n:
+            # a caller that asks for more than one word gets the next words of the scripted stream (block reads)
+            out += bytes(self.script.popleft())
+        if out:
+            return out[:n].rjust(n, b"\0") if len(out) >= n or not self.script else out[:n]
         return bytes(self.rng.getrandbits(8) for _ in range(n))
 
     def __getattr__(self, name):
